@@ -352,9 +352,17 @@ impl Endpoint {
             None,
             &mut self.rng,
         );
-        let tls = config
+        let tls = match config
             .crypto
-            .start_session(config.version, server_name, &params)?;
+            .start_session(config.version, server_name, &params)
+        {
+            Ok(tls) => tls,
+            Err(e) => {
+                // `new_cid` registered `loc_cid` for a connection that will never exist
+                self.index.retire(loc_cid);
+                return Err(e);
+            }
+        };
 
         let conn = self.add_connection(
             ch,
